@@ -31,6 +31,11 @@ pub enum TKind {
     C04,
     C16,
     C14,
+    /// expiry under concurrency: clients race on a key that is just alive or
+    /// just expired (and not yet collected); direct oracle, not linearizability
+    C05,
+    /// delete (with and without CAS) and immediate flush racing stores
+    C08,
 }
 
 pub struct TCheck {
@@ -45,6 +50,12 @@ fn small_val(rng: &mut Rng, tag: u8) -> Val {
 }
 
 fn gen_program(kind: TKind, run_seed: u64, tier: Tier) -> TProgram {
+    if kind == TKind::C05 {
+        return gen_c05_program(run_seed, tier);
+    }
+    if kind == TKind::C08 {
+        return gen_c08_program(run_seed, tier);
+    }
     let mut rng = Rng::sub(run_seed, "tprog");
     let mut knobs = Knobs::default_for(run_seed);
     knobs.shards = *rng.pick(&[2usize, 2, 4, 16]);
@@ -181,6 +192,7 @@ fn gen_program(kind: TKind, run_seed: u64, tier: Tier) -> TProgram {
                     13 => SymReq::store(op::SET, &keys[rng.usize(keys.len())], Val::Fill { byte: b'z', len: rng.range(20, 200) as u32 }, 0, 0, CasSel::Zero),
                     _ => SymReq::get(op::GETK, &keys[rng.usize(keys.len())]),
                 },
+                TKind::C05 | TKind::C08 => unreachable!(),
                 TKind::C14 => {
                     let k = keys[rng.usize(keys.len())].clone();
                     match rng.below(8) {
@@ -216,6 +228,411 @@ fn gen_program(kind: TKind, run_seed: u64, tier: Tier) -> TProgram {
         clients,
         keys,
         sched,
+    }
+}
+
+/// Marker of the value the initialisation stored under a TTL: bytes no client
+/// value contains (text mode), or a number range no client counter reaches.
+const C05_MARK: u8 = 0xe0;
+const C05_NUM_BASE: u64 = 7_000_100;
+
+fn c05_marked(body: &[u8]) -> bool {
+    body.iter().any(|b| *b >= C05_MARK) || body.windows(4).any(|w| w == b"7000")
+}
+
+fn gen_c05_program(run_seed: u64, tier: Tier) -> TProgram {
+    let mut rng = Rng::sub(run_seed, "tprog-c05");
+    let mut knobs = Knobs::default_for(run_seed);
+    knobs.shards = *rng.pick(&[2usize, 2, 4, 16]);
+    knobs.item_limit = 1024 * 1024;
+    if rng.chance(1, 3) {
+        knobs.policy = Policy::Random;
+        knobs.memory_limit = 1 << 62;
+    }
+    let mut keys = gen_keys(&mut rng, 2);
+    for k in keys.iter_mut() {
+        k.truncate(8);
+    }
+    keys.dedup();
+    while keys.len() < 2 {
+        keys.push(vec![b'k', keys.len() as u8]);
+    }
+    let main = keys[0].clone();
+    let other = keys[1].clone();
+    let numeric = rng.chance(1, 3);
+    let v0 = if numeric {
+        Val::Bytes((C05_NUM_BASE + rng.below(50)).to_string().into_bytes())
+    } else {
+        Val::Bytes(vec![0xee, C05_MARK + rng.below(16) as u8])
+    };
+    let ttl = *rng.pick(&[1u32, 2, 3, 5, 60]);
+    let mut init = Vec::new();
+    init.push(InitOp::Req(SymReq::store(*rng.pick(&[op::SET, op::ADD]), &main, v0, rng.next() as u32, ttl, CasSel::Zero)));
+    if rng.chance(1, 3) {
+        // a later mutation inside the lifetime (whether it restarts the TTL is the model's business)
+        let a = rng.range(0, ttl as u64 - (ttl > 1) as u64);
+        if a > 0 {
+            init.push(InitOp::AdvanceSecs(a));
+        }
+        if numeric {
+            init.push(InitOp::Req(SymReq::counter(op::INCR, &main, 1, 5, 0, CasSel::Zero)));
+        } else {
+            init.push(InitOp::Req(SymReq::concat(*rng.pick(&[op::APPEND, op::PREPEND]), &main, Val::Bytes(vec![0xef]), CasSel::Zero)));
+        }
+    }
+    let t = ttl as u64;
+    let adv = *rng.pick(&[t.saturating_sub(1), t, t, t + 1, 2 * t + 1, t + 50]);
+    if adv > 0 {
+        init.push(InitOp::AdvanceSecs(adv));
+    }
+    if rng.chance(1, 2) {
+        init.push(InitOp::Req(SymReq::store(op::SET, &other, Val::Bytes(b"by".to_vec()), 5, 0, CasSel::Zero)));
+    }
+    let n_clients = rng.range(2, 3) as usize;
+    let mut clients = Vec::new();
+    let mut tag = 0u8;
+    let mut opaque = 0x7500_0000u32;
+    for _t in 0..n_clients {
+        let n_ops = match tier {
+            Tier::Thorough => *rng.pick(&[1u64, 1, 2, 2, 3]),
+            Tier::Quick => rng.range(1, 2),
+        } as usize;
+        let mut ops = Vec::new();
+        for _ in 0..n_ops {
+            tag += 1;
+            opaque += 1;
+            let key = if rng.chance(1, 8) { other.clone() } else { main.clone() };
+            let cas = match rng.below(6) {
+                0 => CasSel::Current,
+                1 => CasSel::Stale(0),
+                _ => CasSel::Zero,
+            };
+            let no_create = if rng.chance(1, 2) { 0xffff_ffffu32 } else { 0 };
+            let mut r = match rng.below(20) {
+                0..=3 => SymReq::get(op::GET, &key),
+                4 => SymReq::get(op::GETK, &key),
+                5 | 6 => SymReq::store(op::ADD, &key, small_val(&mut rng, tag), tag as u32, *rng.pick(&[0u32, 0, 7]), CasSel::Zero),
+                7 | 8 => SymReq::store(op::REPLACE, &key, small_val(&mut rng, tag), tag as u32, 0, cas.clone()),
+                9 | 10 => SymReq::concat(op::APPEND, &key, small_val(&mut rng, tag), cas.clone()),
+                11 => SymReq::concat(op::PREPEND, &key, small_val(&mut rng, tag), cas.clone()),
+                12 | 13 => SymReq::counter(op::INCR, &key, rng.range(1, 9), 1000 + tag as u64, no_create, cas.clone()),
+                14 | 15 => SymReq::counter(op::DECR, &key, rng.range(1, 9), 1000 + tag as u64, no_create, cas.clone()),
+                16 => SymReq::store(op::SET, &key, small_val(&mut rng, tag), tag as u32, 0, CasSel::Zero),
+                17 => SymReq::store(op::SET, &key, small_val(&mut rng, tag), tag as u32, 0, if cas == CasSel::Zero { CasSel::Current } else { cas.clone() }),
+                18 => SymReq::delete(op::DELETE, &key, cas.clone()),
+                _ => SymReq::get(op::GET, &key),
+            };
+            r.opaque = opaque;
+            ops.push(r);
+        }
+        clients.push(ops);
+    }
+    let sseed = Rng::sub(run_seed, "schedule").next();
+    let sched = if rng.chance(3, 5) {
+        SchedSpec::Random { seed: sseed }
+    } else {
+        SchedSpec::Pct {
+            seed: sseed,
+            depth: rng.range(1, 3) as u8,
+        }
+    };
+    TProgram {
+        knobs,
+        init,
+        clients,
+        keys,
+        sched,
+    }
+}
+
+/// C05 under concurrency, with the clock fixed while the clients overlap.
+/// (a) nothing returned may be, or be derived from, the value of an item that
+///     had expired before the clients started;
+/// (b) if no client command can create the key, every command sees it absent;
+/// (c) if the item was alive and no client deletes or flushes, every command
+///     sees the key present.
+fn evaluate_c05(p: &TProgram, h: &THistory, viols: &mut Vec<Violation>) {
+    for v in &h.init_violations {
+        viols.push(v.clone());
+    }
+    let main = &p.keys[0];
+    let mut m = h.init_model.clone();
+    m.expiry_slack = 0;
+    let presence = m.presence(main);
+    let on_main = |k: &[u8]| k == &main[..];
+    let kinds: Vec<(Kind, &crate::wire::Request)> = h.ops.iter().filter(|o| on_main(&o.req.key)).map(|o| (op_info(o.req.opcode).kind, &o.req)).collect();
+    let creating = kinds.iter().any(|(k, r)| match k {
+        Kind::Set | Kind::Add => true,
+        Kind::Incr | Kind::Decr => r.extras.len() != 20 || r.extras[16..20] != [0xff, 0xff, 0xff, 0xff],
+        _ => false,
+    });
+    let removing = h.ops.iter().any(|o| matches!(op_info(o.req.opcode).kind, Kind::Flush)) || kinds.iter().any(|(k, _)| matches!(k, Kind::Delete));
+    let now = m.now;
+    let mut observe = |what: String, kind: Kind, req: &crate::wire::Request, resp: &Option<crate::wire::Response>| {
+        let r = match resp {
+            Some(r) => r,
+            None => return,
+        };
+        let no_create = req.extras.len() == 20 && req.extras[16..20] == [0xff, 0xff, 0xff, 0xff];
+        match presence {
+            crate::model::Presence::Expired | crate::model::Presence::Absent => {
+                let derived = match kind {
+                    Kind::Get => r.status == wire::status::OK && c05_marked(r.value()),
+                    Kind::Incr | Kind::Decr => r.status == wire::status::OK && r.counter().map(|c| c >= C05_NUM_BASE - 100 && c <= C05_NUM_BASE + 400).unwrap_or(false),
+                    _ => false,
+                };
+                if derived {
+                    viols.push(Violation::new("C05", "concurrent-visible-after-expiry", format!("{} at t={} returned {} - the value (or one derived from it) of an item that had expired before the clients started; history: {}", what, now, r.short(), describe_history(h))));
+                    return;
+                }
+                if !creating {
+                    let as_present = match kind {
+                        Kind::Get => r.status != wire::status::NOT_FOUND,
+                        Kind::Replace => r.status != wire::status::NOT_FOUND,
+                        Kind::Append | Kind::Prepend => r.status != wire::status::NOT_FOUND && r.status != wire::status::NOT_STORED,
+                        Kind::Incr | Kind::Decr => no_create && r.status != wire::status::NOT_FOUND,
+                        _ => false,
+                    };
+                    if as_present {
+                        viols.push(Violation::new("C05", "concurrent-treated-as-present-after-expiry", format!("{} at t={} answered {} although the item had expired before the clients started and no client command can create the key; history: {}", what, now, r.short(), describe_history(h))));
+                    }
+                }
+            }
+            crate::model::Presence::Present if !removing => {
+                let as_absent = match kind {
+                    Kind::Get => r.status == wire::status::NOT_FOUND,
+                    Kind::Add => r.status == wire::status::OK,
+                    Kind::Replace => r.status == wire::status::NOT_FOUND,
+                    Kind::Append | Kind::Prepend => r.status == wire::status::NOT_FOUND || r.status == wire::status::NOT_STORED,
+                    Kind::Incr | Kind::Decr => no_create && r.status == wire::status::NOT_FOUND,
+                    _ => false,
+                };
+                if as_absent {
+                    viols.push(Violation::new("C05", "concurrent-premature-expiry", format!("{} at t={} answered {} although the item is inside its TTL and no client deletes or flushes; history: {}", what, now, r.short(), describe_history(h))));
+                }
+            }
+            _ => {}
+        }
+    };
+    for o in &h.ops {
+        if on_main(&o.req.key) {
+            observe(format!("T{}.{} {:?}", o.client, o.index, op_info(o.req.opcode).kind), op_info(o.req.opcode).kind, &o.req, &o.resp);
+        }
+    }
+    for (req, resp) in &h.final_reads {
+        if on_main(&req.key) {
+            observe("final get".to_string(), Kind::Get, req, resp);
+        }
+    }
+}
+
+fn gen_c08_program(run_seed: u64, tier: Tier) -> TProgram {
+    let mut rng = Rng::sub(run_seed, "tprog-c08");
+    let mut knobs = Knobs::default_for(run_seed);
+    knobs.shards = *rng.pick(&[2usize, 2, 4, 16]);
+    knobs.item_limit = 1024 * 1024;
+    if rng.chance(1, 3) {
+        knobs.policy = Policy::Random;
+        knobs.memory_limit = 1 << 62;
+    }
+    let mut keys = gen_keys(&mut rng, 4);
+    for k in keys.iter_mut() {
+        k.truncate(8);
+    }
+    keys.sort();
+    keys.dedup();
+    while keys.len() < 3 {
+        keys.push(vec![b'k', keys.len() as u8]);
+    }
+    let flush_flavour = rng.chance(1, 3);
+    let main = keys[0].clone();
+    let mut init = Vec::new();
+    let mut itag = 0u8;
+    let mut init_val = |rng: &mut Rng| -> Val {
+        itag += 1;
+        Val::Bytes(vec![b'i', itag, b'0' + rng.below(10) as u8])
+    };
+    if flush_flavour {
+        for k in keys.iter() {
+            if rng.chance(2, 3) {
+                let v = init_val(&mut rng);
+                init.push(InitOp::Req(SymReq::store(op::SET, k, v, rng.next() as u32, *rng.pick(&[0u32, 0, 100]), CasSel::Zero)));
+            }
+        }
+    } else {
+        match rng.below(5) {
+            0 => {}
+            1 | 2 | 3 => {
+                let v = init_val(&mut rng);
+                init.push(InitOp::Req(SymReq::store(op::SET, &main, v, rng.next() as u32, 0, CasSel::Zero)));
+                if rng.chance(1, 2) {
+                    // a second version: a stale-but-issued CAS exists
+                    let v = init_val(&mut rng);
+                    init.push(InitOp::Req(SymReq::store(op::SET, &main, v, rng.next() as u32, 0, CasSel::Zero)));
+                }
+            }
+            _ => {
+                let v = init_val(&mut rng);
+                init.push(InitOp::Req(SymReq::store(op::SET, &main, v, rng.next() as u32, 2, CasSel::Zero)));
+                init.push(InitOp::AdvanceSecs(*rng.pick(&[2u64, 3, 50])));
+            }
+        }
+        if rng.chance(1, 2) {
+            init.push(InitOp::Req(SymReq::store(op::SET, &keys[1], Val::Bytes(b"by".to_vec()), 5, 0, CasSel::Zero)));
+        }
+    }
+    let n_clients = rng.range(2, 3) as usize;
+    let mut clients = Vec::new();
+    let mut tag = 0u8;
+    let mut opaque = 0x7800_0000u32;
+    let flusher = rng.usize(n_clients);
+    for t in 0..n_clients {
+        let n_ops = match tier {
+            Tier::Thorough => *rng.pick(&[1u64, 2, 2, 3]),
+            Tier::Quick => rng.range(1, 2),
+        } as usize;
+        let mut ops = Vec::new();
+        for j in 0..n_ops {
+            tag += 1;
+            opaque += 1;
+            let mut r = if flush_flavour {
+                let k = keys[rng.usize(keys.len())].clone();
+                if t == flusher && j == 0 {
+                    SymReq::flush(*rng.pick(&[op::FLUSH, op::FLUSH, op::FLUSHQ]), if rng.chance(1, 4) { Some(0) } else { None })
+                } else {
+                    match rng.below(8) {
+                        0..=3 => SymReq::store(op::SET, &k, small_val(&mut rng, tag), tag as u32, 0, CasSel::Zero),
+                        4 | 5 => SymReq::get(op::GET, &k),
+                        6 => SymReq::flush(op::FLUSH, None),
+                        _ => SymReq::get(op::GETK, &k),
+                    }
+                }
+            } else {
+                let key = if rng.chance(1, 8) { keys[1].clone() } else { main.clone() };
+                match rng.below(15) {
+                    0..=2 => SymReq::delete(op::DELETE, &key, CasSel::Zero),
+                    3..=5 => SymReq::delete(op::DELETE, &key, CasSel::Current),
+                    6 => SymReq::delete(op::DELETE, &key, CasSel::Stale(0)),
+                    7..=9 => SymReq::store(op::SET, &key, small_val(&mut rng, tag), tag as u32, 0, CasSel::Zero),
+                    10 | 11 => SymReq::store(op::SET, &key, small_val(&mut rng, tag), tag as u32, 0, CasSel::Current),
+                    _ => SymReq::get(op::GET, &key),
+                }
+            };
+            r.opaque = opaque;
+            ops.push(r);
+        }
+        clients.push(ops);
+    }
+    let sseed = Rng::sub(run_seed, "schedule").next();
+    let sched = if rng.chance(3, 5) {
+        SchedSpec::Random { seed: sseed }
+    } else {
+        SchedSpec::Pct {
+            seed: sseed,
+            depth: rng.range(1, 3) as u8,
+        }
+    };
+    TProgram {
+        knobs,
+        init,
+        clients,
+        keys,
+        sched,
+    }
+}
+
+/// C08 under concurrency.
+/// Programs without a flush: the history must be linearizable; if it is not but
+/// becomes so when the deletes are left free (any answer, removed or not), the
+/// deletes are what is wrong.
+/// Programs with (immediate) flushes, real-time order only: a value whose store
+/// was acknowledged before a flush was invoked is never returned to a get
+/// invoked after that flush returned; a store invoked after every flush has
+/// returned, and not followed or overlapped by another mutation of its key, is
+/// what the final read returns.
+fn evaluate_c08(p: &TProgram, h: &THistory, out: &mut Outcome, viols: &mut Vec<Violation>) {
+    let is_flush = |o: &crate::ringt::TOp| matches!(op_info(o.req.opcode).kind, Kind::Flush);
+    if !h.ops.iter().any(|o| is_flush(o)) {
+        let r = lin::check_atomic(h);
+        out.count("linearization_orders_tried", r.orders_tried);
+        if !r.ok {
+            let why = r.why.first().map(|v| format!("[{}] {}", v.signature(), v.detail)).unwrap_or_default();
+            let has_delete = h.ops.iter().any(|o| matches!(op_info(o.req.opcode).kind, Kind::Delete));
+            if has_delete && lin::check_atomic_wild(h, Some(Kind::Delete)).ok {
+                viols.push(Violation::new("C08", "concurrent-delete-not-atomic", format!("no one-at-a-time ordering explains the history, but one does as soon as the deletes are left free (any answer, key removed or not): a delete removed an item it should not have, or answered what no ordering allows; closest attempt fails with {}; history: {}", why, describe_history(h))));
+            } else {
+                viols.push(Violation::new("C03", "not-linearizable", format!("no one-at-a-time ordering explains the history (not explained by the deletes alone); closest attempt fails with {}; history: {}", why, describe_history(h))));
+            }
+        }
+        return;
+    }
+    // ---- flush flavour
+    let flushes: Vec<&crate::ringt::TOp> = h.ops.iter().filter(|o| is_flush(o) && o.completed).collect();
+    // writer of every value: (key, value) -> (ret of the acknowledged store; 0 for the initialisation)
+    let mut writers: Vec<(Vec<u8>, Vec<u8>, u32)> = Vec::new();
+    for i in &p.init {
+        if let InitOp::Req(r) = i {
+            if matches!(op_info(r.opcode).kind, Kind::Set) {
+                if let Val::Bytes(b) = &r.val {
+                    writers.push((r.key.clone(), b.clone(), 0));
+                }
+            }
+        }
+    }
+    for o in &h.ops {
+        if matches!(op_info(o.req.opcode).kind, Kind::Set) && o.resp.as_ref().map(|r| r.status == wire::status::OK).unwrap_or(false) {
+            writers.push((o.req.key.clone(), o.req.value.clone(), o.ret));
+        }
+    }
+    let mut reads: Vec<(String, &[u8], u32, &crate::wire::Response)> = Vec::new();
+    for o in &h.ops {
+        if matches!(op_info(o.req.opcode).kind, Kind::Get) {
+            if let Some(r) = &o.resp {
+                if r.status == wire::status::OK {
+                    reads.push((format!("T{}.{} get", o.client, o.index), &o.req.key, o.inv, r));
+                }
+            }
+        }
+    }
+    for (req, resp) in &h.final_reads {
+        if let Some(r) = resp {
+            if r.status == wire::status::OK {
+                reads.push(("final get".to_string(), &req.key, u32::MAX, r));
+            }
+        }
+    }
+    for (what, key, inv, r) in &reads {
+        for f in &flushes {
+            if *inv <= f.ret {
+                continue;
+            }
+            if let Some((_, _, wret)) = writers.iter().find(|(k, v, _)| k == key && v.as_slice() == r.value()) {
+                if *wret < f.inv {
+                    viols.push(Violation::new("C08", "concurrent-visible-after-flush", format!("{} of key {} invoked after the flush T{}.{} had returned still got value {} whose store was acknowledged before that flush was invoked; history: {}", what, wire::hex_short(key, 8), f.client, f.index, wire::hex_short(r.value(), 8), describe_history(h))));
+                }
+            }
+        }
+    }
+    let last_flush_ret = flushes.iter().map(|f| f.ret).max().unwrap_or(0);
+    let all_flushes_done = h.ops.iter().filter(|o| is_flush(o)).all(|o| o.completed);
+    if all_flushes_done {
+        for s in h.ops.iter().filter(|o| matches!(op_info(o.req.opcode).kind, Kind::Set)) {
+            let acked = s.resp.as_ref().map(|r| r.status == wire::status::OK).unwrap_or(false);
+            if !acked || s.inv <= last_flush_ret {
+                continue;
+            }
+            let undisturbed = h.ops.iter().all(|o| std::ptr::eq(o, s) || o.req.key != s.req.key || matches!(op_info(o.req.opcode).kind, Kind::Get) || o.ret < s.inv);
+            if !undisturbed {
+                continue;
+            }
+            let fin = h.final_reads.iter().find(|(req, _)| req.key == s.req.key);
+            if let Some((_, resp)) = fin {
+                let ok = resp.as_ref().map(|r| r.status == wire::status::OK && r.value() == s.req.value.as_slice()).unwrap_or(false);
+                if !ok {
+                    viols.push(Violation::new("C08", "concurrent-flush-removed-later-store", format!("the store T{}.{} of key {} was invoked after every flush had returned and nothing touched the key afterwards, but the final read does not return it; history: {}", s.client, s.index, wire::hex_short(&s.req.key, 8), describe_history(h))));
+                }
+            }
+        }
     }
 }
 
@@ -299,6 +716,8 @@ impl TCheck {
                     }
                 }
             }
+            TKind::C05 if clean => evaluate_c05(p, h, &mut viols),
+            TKind::C08 if clean => evaluate_c08(p, h, out, &mut viols),
             TKind::C14 if clean => {
                 // no store is in progress now: the sum is at most the limit plus one
                 // record per client that stored (its largest), plus the record the
@@ -369,6 +788,8 @@ impl TCheck {
             TKind::C04 => "C04",
             TKind::C16 => "C16",
             TKind::C14 => "C14",
+            TKind::C05 => "C05",
+            TKind::C08 => "C08",
         };
         if self.kind == TKind::C14 {
             // "eviction always terminates" is part of C14: in its own programs a run that
@@ -393,6 +814,8 @@ impl Check for TCheck {
             TKind::C04 => "C04",
             TKind::C16 => "C16",
             TKind::C14 => "C14",
+            TKind::C05 => "C05",
+            TKind::C08 => "C08",
         }
     }
     fn runs(&self, tier: Tier) -> u64 {
@@ -548,6 +971,8 @@ impl Check for TCheck {
             TKind::C03 => "get / set / cas-set (current, stale) / delete (with and without CAS) on one key plus a bystander key",
             TKind::C04 => "add / replace / append / prepend / incr / decr (cas 0 or the current CAS) mixed with get / set / delete on one key",
             TKind::C16 => "any commands: single-key, multi-key, immediate and delayed flush, stores that trigger eviction sweeps, expiry collection",
+            TKind::C05 => "every command on a key whose item is just alive or just expired and not yet collected",
+            TKind::C08 => "delete (cas 0 / current / stale) racing set / cas-set / get on one key; immediate flushes racing stores over 3-4 keys",
             TKind::C14 => "stores / overwrites / appends / counter updates / deletes under random eviction with limits 0..300 bytes",
         };
         format!("seeded programs of 2-3 clients x 1-2 operations ({}) against every initial state of the key (absent, present, present-but-expired), both store stacks, shard counts 2/4/16; each run executes one program under one seeded schedule (uniform random, or PCT with 1-3 priority change points) on real threads of which exactly one holds the baton; scheduling points: before every DashMap shard-lock acquire, every access to cas_id / memory_usage, every clock read, every operation invoke and return. non-trivial = at least one preemption (another thread chosen although the running one could continue); distinct = distinct fingerprints of (schedule trace, scheduling events, requests, responses)", what)
